@@ -59,7 +59,79 @@ def scalar_class(t):
     return None, None
 
 
+def ruleset_settings_text(ctx):
+    """Shared by C05 and C12: every text setting of a ruleset (post_action_delay, prekill_hook_timeout, silence-logs, cgroup, xattr_filter,
+    name) reaches the IR as the JSON value's own asString() - numbers included, `"post_action_delay": 20` and `"20"` are the same setting
+    (docs/configuration.md spells it <int>).  Helpers are followed: each value a helper can return is the member's asString(); a constant
+    stands in only where the member is absent / null."""
+    P = ctx.prog
+    fs = [f for f in P.fns.values() if (f.pq == "parseRuleset" or f.pq.endswith("::parseRuleset")) and f.file.startswith("oomd/")]
+    ctx.counters["parseRuleset_instances"] = len(fs)
+    ctx.floor("parseRuleset_instances", 1, "parseRuleset in the JSON front end")
+    JSONTYPE = re.compile(r"\.(isString|isNumeric|isInt|isUInt|isInt64|isUInt64|isIntegral|isDouble|isBool|isConvertibleTo)\(")
+    ABSENT = re.compile(r"(\.isNull\(\)|\.isMember\(|\.empty\(\)|\.find\()")
+    n_set = 0
+    for f in fs:
+        ctx.use(f)
+        X = Expander(P, f)
+        for i, n in enumerate(f.nodes):
+            if not ((n["k"] == "bin" and n.get("op") == "=") or (n["k"] == "call" and (n.get("callee") or "").endswith("operator="))):
+                continue
+            lhs = n.get("l", n.get("recv"))
+            rhs = n["r"] if "r" in n else (n.get("args") or [None])[0]
+            if lhs is None or rhs is None or f.pos_of(i) is None:
+                continue
+            ln = f.nodes[f.strip(lhs)]
+            if ln["k"] != "member" or "string" not in (ln.get("type") or "") or "IR::Ruleset" not in (f.nodes[f.strip(ln.get("base", -1))].get("type") or "") if "base" in ln else True:
+                continue
+            field = ln.get("name") or f.text(lhs).split(".")[-1]
+            n_set += 1
+            # the alternative values, helpers followed one level
+            leaves = []        # (function, leaf node, guards)
+            for lf in value_leaves(f, rhs):
+                cn_ = f.nodes[f.strip(lf)]
+                hs_ = [P.fns[u] for u in P.resolve(cn_.get("cusr", "")) if u in P.fns] if cn_["k"] == "call" and cn_.get("cusr") else []
+                hs_ = [h_ for h_ in hs_ if h_.file.startswith("oomd/")]
+                if hs_ and len({(h_.pq, h_.line) for h_ in hs_}) == 1:
+                    h_ = hs_[0]
+                    ctx.use(h_)
+                    fh = Flow(P, h_, cg=ctx.cg)
+                    Xh = Expander(P, h_)
+                    for r_, v_ in return_leaves(h_):
+                        leaves.append((h_, v_, expanded_guards(P, h_, fh, v_, Xh), Xh(v_)))
+                else:
+                    leaves.append((f, lf, frozenset(), X(lf)))
+            bad, unknown = [], []
+            for g_, v_, gd, txt in leaves:
+                if re.search(r"\.asString\(\)$", txt):
+                    # ... and not behind a type test that keeps numbers out
+                    drops = [k for k, p_ in gd if isinstance(k, str) and JSONTYPE.search(k) and ".isString(" in k and p_ is True]
+                    if drops:
+                        pass        # asString() under isString(): fine for that branch; the other branch is judged below
+                    continue
+                typed = [(k, p_) for k, p_ in gd if isinstance(k, str) and JSONTYPE.search(k)]
+                absent = [(k, p_) for k, p_ in gd if isinstance(k, str) and ABSENT.search(k)]
+                if typed and not absent:
+                    bad.append("%s under %s" % (txt[:40] or "an empty string", ", ".join("%s is %s" % (k, p_) for k, p_ in typed)))
+                elif absent:
+                    continue
+                else:
+                    unknown.append(txt[:60])
+            inst = "settings:text-is-the-json-scalar:" + field
+            if bad:
+                ctx.violation(inst, "provenance (helpers followed)", f.loc(i),
+                              "ruleset setting '%s' is not the JSON value's own text: it becomes %s - a setting written as a JSON number (as the "
+                              "documentation spells it) is dropped or replaced silently and the default is used" % (field, "; ".join(bad)))
+            elif unknown:
+                ctx.broken(inst, "provenance (helpers followed)", f.loc(i), "cannot tell where the text of '%s' comes from: %s" % (field, "; ".join(unknown)))
+            else:
+                ctx.ok(inst, "provenance (helpers followed)", f.loc(i), "ruleset setting '%s' is the JSON member's own asString()" % field)
+    ctx.counters["ruleset_text_settings"] = n_set
+    ctx.floor("ruleset_text_settings", 4, "text settings assigned in parseRuleset (post_action_delay, prekill_hook_timeout, silence-logs, cgroup, ...)")
+
+
 def run(ctx):
+    ruleset_settings_text(ctx)
     # locals / parameters the rules below refer to by name (a rename makes the analysis 'broken', never a violation)
     ctx.anchor(ctx.fn1('Oomd::Util::parseSize'), 'v')
     ctx.anchor(ctx.fn1('Oomd::Util::parseSizeOrPercent'), 'v')
